@@ -15,6 +15,12 @@ UDP datagrams); a recording servant counts implementation entries; gates inside 
 classes (queued past its own timeout, far beyond the handle timeout) deterministic.  Every frame that comes back
 is decoded inside TLC by the strict reference decoder (TarsSchema with the schemas of requestf.ResponsePacket /
 RequestPacket from lib/idl2schema.py) and judged by ServerInvoke!Faults (Oracle_ServerInvoke.tla).
+Process-wide registrations are part of the configuration: besides pool / handle timeout / transport the corpus is sent to
+servers with observer (pass-through) server filters registered - the legacy tars.RegisterServerFilter, pre and post
+filters, filter middlewares, all of them together - and to a servant registered without context (AddServant); every
+request kind (ping, unknown function, one-way, TARS/TUP/JSON, queue and handle timeouts) must occur under each of them.
+The relation owes the same replies whatever is registered (MC_vg_pingfilter: a model in which a registered legacy
+filter sends the ping to the dispatcher must break ResultConveyed).
 """
 import json
 import os
@@ -39,12 +45,34 @@ def stage(ctx):
     return gobuild.build(ctx, "srvdrive")
 
 
+STAGES = {"none": 0, "legacy": 1, "prepost": 4, "mw": 2, "all": 1}     # filter stages a dispatched call passes
+
+
+def full(conf):
+    """(proto, pool, ht, rounds, per, conns[, filters, servant]) -> the 8-tuple (replays recorded before filters existed have 6)."""
+    conf = tuple(conf)
+    return conf + ("none", "ctx")[len(conf) - 6:] if len(conf) < 8 else conf
+
+
+def variant(conf):
+    """The process-wide registrations of a configuration, as a label; '' = nothing registered, servant with context."""
+    filt, servant = conf[6], conf[7]
+    lab = [] if filt == "none" else [filt + "-filter" if filt in ("legacy", "all") else {"prepost": "pre-post-filters", "mw": "filter-middlewares"}[filt]]
+    if servant != "ctx":
+        lab.append("servant-without-context")
+    return "+".join(lab)
+
+
+def cfgname(conf):
+    return "%s/pool%d/ht%d" % conf[:3] + ("/" + variant(conf) if variant(conf) else "")
+
+
 def drive(ctx, exe, conf, seed, tag):
-    proto, pool, ht, rounds, per, conns = conf
+    proto, pool, ht, rounds, per, conns, filt, servant = conf
     d = ctx.sub("drv-%s" % tag)
     out = os.path.join(d, "recs.ndjson")
-    rc, so, se = sh([exe, "run", "-proto", proto, "-pool", str(pool), "-ht", str(ht), "-seed", str(seed), "-rounds", str(rounds),
-                     "-per", str(per), "-conns", str(conns), "-out", out], timeout=900, check=False, cwd=d)
+    rc, so, se = sh([exe, "run", "-proto", proto, "-pool", str(pool), "-ht", str(ht), "-filters", filt, "-servant", servant, "-seed", str(seed),
+                     "-rounds", str(rounds), "-per", str(per), "-conns", str(conns), "-out", out], timeout=900, check=False, cwd=d)
     if rc != 0:
         dumps = sorted(f for f in os.listdir(d) if f.startswith("panic."))
         if dumps:      # tars.CheckPanic: the framework dumped the stack and exited while serving well-formed requests
@@ -54,6 +82,8 @@ def drive(ctx, exe, conf, seed, tag):
     summ = json.loads(so.strip().splitlines()[-1])
     if summ["maxroutine"] != pool or summ["handletimeout_ms"] != ht:
         raise Inconclusive("server configuration was not taken by the framework: %s" % summ)
+    if summ["filters"] != filt or summ["servant"] != servant or summ["filter_stages_per_call"] != STAGES[filt]:
+        raise Inconclusive("driver did not take the filter / servant configuration: %s" % summ)
     if proto == "tcp" and (summ["hook_handleConn"] != summ["sent"] or summ["hook_invoked"] != summ["sent"]):
         raise Inconclusive("hook self-test: tcp.handleConn / tcp.handler.invoked did not fire once per request: %s" % summ)
     return out, summ
@@ -153,11 +183,15 @@ def run(ctx):
         "assumption a one-way request can still be answered by the timeout path (MC_kf_early_timer shows it)",
         "a TUP reply (a RequestPacket) conveys its result in the status map (STATUS_RESULT_CODE / STATUS_RESULT_DESC); absent = success",
         "replies are attributed to requests by connection and request id (ids are unique per run)",
+        "the server filters registered in the filter configurations are observers: the legacy filter and the middlewares pass the call on and "
+        "return its error, pre and post filters return nil; with such filters (or a servant registered without context) the same replies are "
+        "owed as without them; which requests a filter gets to see (pings, queue timeouts) is recorded as an observation, not judged",
     ]
     replay = json.load(open(ctx.replay)).get("replay", {}) if ctx.replay else None
     ex = ThreadPoolExecutor(max_workers=4)
     mc_cfgs = ctx.pick(["single", "pair_safety"], ["single", "pair", "triple"])
-    kf_cfgs = {"kf_blank": "IdentityEchoed", "kf_late": "OnewaySilent", "kf_tup": "ResultConveyed", "kf_early_timer": "OnewaySilent"}
+    kf_cfgs = {"kf_blank": "IdentityEchoed", "kf_late": "OnewaySilent", "kf_tup": "ResultConveyed", "kf_early_timer": "OnewaySilent",
+               "vg_pingfilter": "ResultConveyed"}
     if replay is not None:
         mc_cfgs, kf_cfgs = [], {}
     futs = {c: ex.submit(tlc.run, ctx, SPEC, "MC_ServerInvoke", cfg="MC_%s.cfg" % c, workers=ctx.pick(3, 6) if c in ("pair", "pair_safety", "triple") else 1,
@@ -165,19 +199,31 @@ def run(ctx):
 
     exe = stage(ctx)
     ht = HT_MS
+    # process-wide registrations under which the whole corpus is repeated: (filters, servant)
+    variants = [("legacy", "ctx"), ("prepost", "ctx"), ("mw", "ctx"), ("all", "ctx"), ("none", "plain")]
     if ctx.quick:
         confs = [("tcp", 0, 0, 7, 28, 3), ("tcp", 1, 0, 7, 28, 2), ("tcp", 2, ht, 6, 28, 4), ("tcp", 0, ht, 7, 28, 1),
                  ("tcp", 1, ht, 5, 28, 3), ("udp", 0, 0, 7, 28, 2), ("udp", 1, ht, 5, 28, 2), ("udp", 2, 0, 6, 28, 3)]
+        confs = [c + ("none", "ctx") for c in confs]
+        # each registration with a pool and a handle timeout (so that queue and handle timeouts occur under it), transports and pool sizes
+        # rotating with the seed; the legacy filter also without pool and handle timeout
+        shapes = [("tcp", 1, ht, 5, 28, 2), ("tcp", 2, ht, 5, 28, 3), ("udp", 1, ht, 5, 28, 2), ("tcp", 1, ht, 5, 28, 3), ("udp", 2, ht, 5, 28, 2)]
+        for j, v in enumerate(variants):
+            confs.append(shapes[(j + ctx.seed) % len(shapes)] + v)
+        confs.append((("tcp", 0, 0, 5, 28, 3), ("udp", 0, 0, 5, 28, 2))[ctx.seed % 2] + ("legacy", "ctx"))
     else:
         confs = []
         for proto in ("tcp", "udp"):
             for pool in (0, 1, 2, 4):
                 for h in (0, ht):
                     rounds = 25
-                    confs.append((proto, pool, h, rounds, 25, {0: 16, 1: 1, 2: 4, 4: 9}[pool] if proto == "tcp" else 3))
+                    confs.append((proto, pool, h, rounds, 25, {0: 16, 1: 1, 2: 4, 4: 9}[pool] if proto == "tcp" else 3, "none", "ctx"))
+        for v in variants:
+            for (proto, pool, h, conns) in (("tcp", 0, 0, 8), ("tcp", 2, 0, 4), ("tcp", 0, ht, 8), ("tcp", 2, ht, 4), ("udp", 1, ht, 3), ("udp", 0, 0, 3)):
+                confs.append((proto, pool, h, 16, 25, conns) + v)
     seeds = [ctx.seed * 100 + i for i in range(len(confs))]
     if replay is not None:       # one recorded configuration, with the seed it was recorded under
-        confs, seeds = [tuple(replay["conf"])], [replay["seed"]]
+        confs, seeds = [full(replay["conf"])], [replay["seed"]]
     schema = idl2schema.load([os.path.join(REPO, "tars", "protocol", "res", "RequestF.tars")])
     extra = {"schemas.json": json.dumps({"structs": schema["structs"]})}
     for need in ("requestf.ResponsePacket", "requestf.RequestPacket"):
@@ -211,73 +257,143 @@ def run(ctx):
         ex.shutdown(wait=True)
         return
 
-    # ---- faults -> signatures; timing-dependent ones must reproduce on the same configuration and seed, three out of three
+    # ---- faults -> signatures.  A fault that harness timing cannot explain is reported at once; the others must reproduce on the
+    # same configuration and seed, three out of three.  Of the configurations that showed a timing-dependent fault only a covering
+    # subset is re-run (fewest configurations that between them showed every such signature, earlier = plainer ones first); a
+    # signature that does not reproduce there is tried on the other configurations that showed it before it is dropped.
     confirmed, unreproduced = {}, {}
-    retry = []
+    observed, pending = {}, {}
     for i, rn in enumerate(runs):
         sigs = {}
         for (ri, k, cl, sit, ver) in rn["why"]:
             sigs.setdefault((signature(cl, sit, ver), cl, sit), []).append((ri, k, ver))
         rn["sigs"] = sigs
         for (sig, cl, sit), where in sigs.items():
+            observed.setdefault(sig, []).append((i, rn, where))
             if timing_free(cl, sit, rn["conf"]):
-                confirmed.setdefault(sig, []).append((i, rn, where, 1))
-        if any(not timing_free(cl, sit, rn["conf"]) for (_, cl, sit) in sigs):
-            retry.append(i)
-    if retry:
-        ctx.log("re-running %d configurations twice to reproduce timing-dependent faults" % len(retry))
+                confirmed.setdefault(sig, (i, 1))
+    for i, rn in enumerate(runs):
+        for (sig, cl, sit) in rn["sigs"]:
+            if sig not in confirmed:
+                pending.setdefault(sig, []).append(i)
+    tried = set()
+    while True:
+        todo = {sig: [i for i in lst if i not in tried] for sig, lst in pending.items() if sig not in confirmed}
+        todo = {sig: lst for sig, lst in todo.items() if lst}
+        if not todo:
+            break
+        chosen, uncovered = [], set(todo)
+        while uncovered:
+            cand = sorted({i for sig in uncovered for i in todo[sig]})
+            best = max(cand, key=lambda i: (sum(1 for sig in uncovered if i in todo[sig]), -i))
+            chosen.append(best)
+            uncovered -= {sig for sig in uncovered if best in todo[sig]}
+        ctx.log("re-running %d configuration(s) twice to reproduce timing-dependent faults: %s" % (len(chosen), ", ".join(cfgname(confs[i]) for i in chosen)))
         with ThreadPoolExecutor(max_workers=8) as dx:
-            again = list(dx.map(lambda ia: (ia[0], one(ia[0], ia[1])), [(i, a) for i in retry for a in (1, 2)]))
-        for i in retry:
-            rn = runs[i]
+            again = list(dx.map(lambda ia: (ia[0], one(ia[0], ia[1])), [(i, a) for i in chosen for a in (1, 2)]))
+        tried |= set(chosen)
+        for i in chosen:
             others = [{signature(cl, sit, ver) for (_, _, cl, sit, ver) in r2["why"]} for j, r2 in again if j == i]
-            for (sig, cl, sit), where in rn["sigs"].items():
-                if timing_free(cl, sit, rn["conf"]):
-                    continue
-                if all(sig in o for o in others):
-                    confirmed.setdefault(sig, []).append((i, rn, where, 3))
-                else:
-                    unreproduced.setdefault(sig, []).append({"conf": rn["conf"], "requests": len(where)})
-    for sig, lst in sorted(confirmed.items()):
-        i, rn, where, times = lst[0]
+            for sig, lst in todo.items():
+                if i in lst and sig not in confirmed and all(sig in o for o in others):
+                    confirmed[sig] = (i, 3)
+    for sig, lst in pending.items():
+        if sig not in confirmed:
+            unreproduced[sig] = [{"conf": runs[i]["conf"], "requests": sum(len(w) for (s2, _, _), w in runs[i]["sigs"].items() if s2 == sig)} for i in lst]
+    reported = {}
+    vername = {1: "tars", 3: "tup", 5: "json"}
+    plain_kinds = {(situation(q, rn["conf"]), vername[q["ver"]]) for rn in runs if not variant(rn["conf"]) for rec in load(rn["out"]) for q in rec["sends"]} \
+        if confirmed else set()
+    recorded_sig = json.load(open(ctx.replay)).get("signature", "") if ctx.replay else ""
+    for sig, (ci, times) in sorted(confirmed.items()):
+        lst = sorted(observed[sig], key=lambda t: (t[0] != ci, t[0]))      # the confirming configuration first
+        i, rn, where = lst[0]
         recs = load(rn["out"])
         ri, k, ver = where[0]
         rec = recs[ri - 1]
         q = next((s for s in rec["sends"] if s["k"] == k), None)
         vers = sorted({w[2] for l in lst for w in l[2]})
-        cfgs = sorted({"%s/pool%d/ht%d" % l[1]["conf"][:3] for l in lst})
+        cfgs = sorted({cfgname(l[1]["conf"]) for l in lst})
+        # a fault that only shows under process-wide registrations (filters, servant without context) is its own input class
+        # (said only when the configurations with nothing registered exercised the same kind of request and showed no such fault;
+        # a replay of one recorded configuration has no such comparison and keeps the suffix of the signature it was recorded under)
+        labels = sorted({variant(l[1]["conf"]) for l in lst})
+        kinds = {(sit2, w[2]) for l in lst for (s2, _, sit2), ws in l[1]["sigs"].items() if s2 == sig for w in ws}
+        only_registered = "" not in labels and bool(kinds & plain_kinds or (kinds == {("-", "-")} and plain_kinds))
+        fsig = sig + ":" + "+".join(labels) if only_registered else sig
+        if replay is not None and recorded_sig.startswith(sig + ":") and set(labels) <= set(recorded_sig[len(sig) + 1:].split("+")):
+            fsig, only_registered = recorded_sig, True
+        reported[fsig] = sum(len(l[2]) for l in lst)
         what = "%s — e.g. request %s under %s; versions %s; configurations %s; %d request(s); %s" % (
             DESCR.get(sig.split(":")[1], sig), json.dumps(q) if q else "(none)", rec["cfg"], vers, cfgs,
-            sum(len(l[2]) for l in lst), "reproduced 3/3 with the same seed" if times == 3 else "not timing dependent")
-        ctx.violate(sig, what, {"conf": rn["conf"], "seed": seeds[i], "record": rec, "request": q,
-                                "cmd": "srvdrive run -proto %s -pool %d -ht %d -seed %d -rounds %d -per %d -conns %d" % (
-                                    rn["conf"][0], rn["conf"][1], rn["conf"][2], seeds[i], rn["conf"][3], rn["conf"][4], rn["conf"][5])})
+            reported[fsig], "reproduced 3/3 with the same seed" if times == 3 else "not timing dependent")
+        if only_registered:
+            what += "; only with these registered in the server process: %s (not in the configurations without)" % ", ".join(labels)
+        ctx.violate(fsig, what, {"conf": rn["conf"], "seed": seeds[i], "record": rec, "request": q,
+                                 "cmd": "srvdrive run -proto %s -pool %d -ht %d -filters %s -servant %s -seed %d -rounds %d -per %d -conns %d" % (
+                                     rn["conf"][0], rn["conf"][1], rn["conf"][2], rn["conf"][6], rn["conf"][7], seeds[i], rn["conf"][3], rn["conf"][4], rn["conf"][5])})
 
     # ---- coverage accounting (classes actually exercised) and the binding self-test
     classes, nreq, nframes, nrec = {}, 0, 0, 0
     clean = []
+    byvar = {}        # registration -> {situation[/oneway]: requests}
+    filt_obs = {}     # registration -> what the filters saw (observations; the statement does not say which requests a filter sees)
     for i, rn in enumerate(runs):
         badrecs = {w[0] for w in rn["why"]}
+        var = variant(rn["conf"]) or "nothing-registered"
+        bv = byvar.setdefault(var, {})
+        fo = filt_obs.setdefault(var, {"stage_entries": 0, "dispatched_calls": 0, "dispatched_calls_seen_by_every_stage": 0, "pings": 0, "pings_seen_by_a_filter": 0,
+                                       "queue_timeouts_seen_by_a_filter": 0})
+        fo["stage_entries"] += sum(rn["summ"]["filter_stage_entries"].values())
+        nclean = 0
         for ri, rec in enumerate(load(rn["out"]), 1):
             nrec += 1
             nframes += len(rec["recvs"])
             for q in rec["sends"]:
                 nreq += 1
-                key = "%s/%s/%s" % (situation(q, rn["conf"]), {1: "tars", 3: "tup", 5: "json"}[q["ver"]], "oneway" if q["pt"] else "twoway")
+                sit = situation(q, rn["conf"])
+                key = "%s/%s/%s" % (sit, {1: "tars", 3: "tup", 5: "json"}[q["ver"]], "oneway" if q["pt"] else "twoway")
                 classes[key] = classes.get(key, 0) + 1
-            if ri not in badrecs and len(clean) < 400:
+                bv[sit] = bv.get(sit, 0) + 1
+                if q["pt"]:
+                    bv["oneway"] = bv.get("oneway", 0) + 1
+                elif sit == "ping":
+                    bv["ping/twoway"] = bv.get("ping/twoway", 0) + 1
+                bv["version-%d" % q["ver"]] = bv.get("version-%d" % q["ver"], 0) + 1
+                if sit in ("ping", "ping-queue-timeout"):
+                    fo["pings"] += 1
+                    fo["pings_seen_by_a_filter"] += 1 if q.get("filt", 0) else 0
+                elif sit == "queue-timeout":
+                    fo["queue_timeouts_seen_by_a_filter"] += 1 if q.get("filt", 0) else 0
+                else:
+                    fo["dispatched_calls"] += 1
+                    fo["dispatched_calls_seen_by_every_stage"] += 1 if q.get("filt", 0) == STAGES[rn["conf"][6]] else 0
+            if ri not in badrecs and nclean < 60:
+                nclean += 1
                 clean.append(rec)
     sits = {k.split("/")[0] for k in classes}
     if replay is not None:
         ctx.coverage = {"states": sum(max(rn["tlc"].distinct, 1) for rn in runs), "transitions": sum(max(rn["tlc"].generated, 1) for rn in runs),
                         "traces_validated_against_impl": nrec, "samples": clean[:1], "evaluations": nreq, "distinct_nontrivial": len(classes),
-                        "rule": "replay of one recorded configuration and seed", "faults_confirmed": {s: sum(len(l[2]) for l in lst) for s, lst in confirmed.items()},
+                        "rule": "replay of one recorded configuration and seed", "faults_confirmed": reported,
                         "faults_not_reproduced": unreproduced}
         ex.shutdown()
         return
     for need in ("ping", "success", "impl-error", "unknown-func", "queue-timeout", "handle-timeout"):
         if need not in sits:
             raise Inconclusive("vacuous run: no request in situation %s" % need)
+    # every request kind under every registration (queue / handle timeouts where a configuration of it has a pool / a handle timeout)
+    for var, bv in byvar.items():
+        mine = [rn["conf"] for rn in runs if (variant(rn["conf"]) or "nothing-registered") == var]
+        needs = ["ping/twoway", "success", "impl-error", "unknown-func", "oneway", "version-1", "version-3", "version-5"]
+        needs += ["queue-timeout"] if any(c[1] > 0 for c in mine) else []
+        needs += ["handle-timeout"] if any(c[2] > 0 for c in mine) else []
+        for need in needs:
+            if not bv.get(need):
+                raise Inconclusive("vacuous run: no %s request under registration '%s'" % (need, var))
+    for var, fo in filt_obs.items():
+        if var not in ("nothing-registered", "servant-without-context") and fo["dispatched_calls_seen_by_every_stage"] == 0:
+            raise Inconclusive("vacuous run: the filters registered as '%s' never saw a dispatched call (%s)" % (var, fo))
     st = selftest(ctx, clean, extra, lenient=bool(ctx.violations))
 
     # ---- model checking results
@@ -307,16 +423,20 @@ def run(ctx):
         "rule": "requests: version TARS/TUP/JSON x normal/one-way x {tars_ping, ok, note, fail(code,msg incl. plain error, codes at the integer width "
                 "boundaries, messages around 255 bytes), slow(short/over/near/block), unknown function} x own timeout {0, ample, elapsed while "
                 "queued}, ids incl. 0, -1, width boundaries; pipelined in random chunks over the connections; one record per (round, connection); "
-                "distinct = (situation, version, one-way?) classes exercised",
+                "the whole corpus repeated under process-wide registrations (observer filters: legacy / pre+post / middlewares / all; servant "
+                "without context); distinct = (situation, version, one-way?) classes exercised",
         "requests": nreq, "reply_frames_decoded_by_reference": nframes, "records": nrec,
-        "configurations": [{"proto": c[0], "pool": c[1], "handle_timeout_ms": c[2], "rounds": c[3], "per_round": c[4], "connections": c[5]} for c in confs],
+        "configurations": [{"proto": c[0], "pool": c[1], "handle_timeout_ms": c[2], "rounds": c[3], "per_round": c[4], "connections": c[5],
+                            "filters": c[6], "servant": c[7]} for c in confs],
         "classes": dict(sorted(classes.items())),
+        "request_kinds_by_registration": {v: dict(sorted(bv.items())) for v, bv in sorted(byvar.items())},
+        "filter_observations": filt_obs,
         "model_checking": mc,
         "hook_hits": {"tcp.handleConn": sum(rn["summ"]["hook_handleConn"] for rn in runs), "tcp.handler.invoked": sum(rn["summ"]["hook_invoked"] for rn in runs),
                       "tcp.handler.written": sum(rn["summ"]["hook_written"] for rn in runs)},
         "discarded_rounds": sum(rn["summ"]["discarded_rounds"] for rn in runs),
         "rounds_not_quiet": sum(rn["summ"]["rounds_not_quiet"] for rn in runs),
-        "faults_confirmed": {s: sum(len(l[2]) for l in lst) for s, lst in confirmed.items()},
+        "faults_confirmed": reported,
         "faults_not_reproduced": unreproduced,
         "selftest_corrupted_records": st,
         "exhaustive": False,
@@ -404,6 +524,21 @@ def selftest(ctx, clean, extra, lenient=False):
     if src is not None:
         r = add(src, {"executed-but-must-not"})
         next(q for q in r["sends"] if q["fn"] == "tars_ping")["impl"] = 1
+    # (g) under a registered filter the ping came back from the dispatcher ('func mismatch', return code 1)
+    def filtered_ping(q):
+        return q["ver"] != 3 and q["fn"] == "tars_ping" and q["tmo"] != "elapsed"
+    src = next((r for r in base if r["cfg"].get("filt", "none") != "none" and any(filtered_ping(q) for q in two_way_ok(r))), None)
+    if src is None:
+        if not lenient:
+            raise Inconclusive("self-test: no answered two-way ping under a registered filter among the clean records")
+        skipped.append("ping-through-filter")
+    else:
+        r = add(src, {"wrong-result"})
+        q = next(q for q in two_way_ok(r) if filtered_ping(q))
+        kept = [f for f in r["recvs"] if not _has_id(f, q["id"])]
+        if len(kept) != len(r["recvs"]) - 1:
+            raise Inconclusive("self-test: cannot locate the reply of request %s" % q["k"])
+        r["recvs"] = kept + [enc_response(q["ver"], 0, s32(q["id"]), 1, b"func mismatch")]
     path = os.path.join(ctx.sub("selftest"), "selftest.ndjson")
     with open(path, "w") as f:
         for r in recs:
